@@ -161,7 +161,9 @@ func (l *c04Log) check(closing bool) []string {
 	started := func(w *c04Write, at int) bool { return w.Start < at }
 	for di, d := range l.dumps {
 		if d.Err != "" {
-			if !closing {
+			// a query that overlaps a drop of its measurement may be refused ("tssp file closed"): the statement asks
+			// that dropping with operations in flight "neither deadlocks nor crashes", not that those operations succeed
+			if !closing && !l.dropStartedBefore("m", d.End) {
 				bad = append(bad, fmt.Sprintf("dump %d failed: %s", di, d.Err))
 			}
 			continue
@@ -258,14 +260,16 @@ type c04Scenario struct {
 //     execution (delay bounding);
 //   - preemptions are offered only where the thread to be pre-empted is about to acquire a lock inside one of
 //     the functions Funcs (suffix match on the function name of the call site of Lock/RLock);
-//   - no explicit "a timer fires now" choice (timers still fire when nothing is enabled).
+//   - Timers explicit "a timer fires now" choices (0 for the snapshot scenarios; timers still fire when nothing is
+//     enabled).
 //
 // Inside these limits the enumeration is complete when the scenario reports its bound as completed; nothing
 // outside them is claimed.
 type c04Seam struct {
-	Funcs     []string
+	Funcs     []string // nil: preemptions everywhere
 	FreeQuick int
 	FreeDeep  int
+	Timers    int // explicit "a timer fires now" choices per execution (each costs one preemption)
 	siteCache map[uintptr]bool
 }
 
@@ -290,7 +294,7 @@ func (sm *c04Seam) accepts(pc uintptr) bool {
 func c04NewExplorer(sc c04Scenario, share, nshare int) *sched.Explorer {
 	e := &sched.Explorer{Share: share, NShare: nshare, TimeChoices: 1}
 	if sm := sc.Seam; sm != nil {
-		e.TimeChoices = 0
+		e.TimeChoices = sm.Timers
 		e.FamilyFirst = true
 		e.FreeLimited = true
 		e.FreeBound = sm.FreeQuick
